@@ -147,6 +147,8 @@ func c14(c *Ctx) (*report.Result, error) {
 	res.Extra["exhaustive"] = true
 	res.Extra["type_paths"] = paths
 	res.Assumptions = []string{"a search-attribute container is *common.SearchAttributes or a map[string]*common.Payload whose field name mentions search attributes (the two forms the property names)"}
+	res.RuleDoc["O14.7"] = "translation, access control and repair keep no memory between messages: no shipped function of the interceptor, proto/compat, auth and collect packages stores into package-level state, receiver fields or sync.Maps after construction - a cache keyed by message type or content makes the treatment of one message depend on the ones before it"
+	checkStateless(c, res, "O14.7", []string{"interceptor", "proto/compat", "auth", "collect"}, map[string]string{})
 	return res, nil
 }
 
